@@ -19,7 +19,7 @@ RULE = ("operation histories on a fresh TrieDict: every sequence of assignments 
         "with a shadow dict. A case is one history; non-trivial = at least one key overwritten, or the empty key, or a None value, "
         "or one key a proper prefix of another; distinct = distinct history.")
 ASSUMPTIONS = ["Python dict keyed by tuple(tokens) is the reference mapping", "single-threaded; TrieDict root reached through name mangling (_TrieDict__root)"]
-FLOORS = ["first-insert", "overwrite", "empty-key", "none-value", "prefix-then-longer", "longer-then-prefix", "invariant-walks", "lmpv-strict-prefix-hit", "getitem-keyerror"]
+FLOORS = ["key-longer-than-the-recursion-limit", "first-insert", "overwrite", "empty-key", "none-value", "prefix-then-longer", "longer-then-prefix", "invariant-walks", "lmpv-strict-prefix-hit", "getitem-keyerror"]
 PROBE_FLOORS = ["TrieDict.__setitem__"]
 
 SENT = object()
@@ -46,18 +46,27 @@ def walk_invariant(ctx, trie, history):
     ctx.count("invariant-walks")
     bad = []
 
-    def rec(node, path):
+    # iterative post-order walk (a key may be longer than the interpreter's recursion limit)
+    below_of = {}
+    stack = [(root, (), False)]
+    while stack:
+        node, path, done = stack.pop()
+        ch = node.children
+        if not done:
+            stack.append((node, path, True))
+            if ch is not None:
+                for tok, c in ch.items():
+                    stack.append((c, path + (tok,) if len(path) < 64 else path, False))
+            continue
         below = 0
-        if node.children is not None:
-            for tok, ch in node.children.items():
-                below += rec(ch, path + (tok,))
-                if ch.value is not NULL:
+        if ch is not None:
+            for tok, c in ch.items():
+                below += below_of.pop(id(c))
+                if c.value is not NULL:
                     below += 1
         if node.counter != below:
             bad.append((path, node.counter, below))
-        return below
-
-    rec(root, ())
+        below_of[id(node)] = below
     if bad:
         ctx.viol("C10:invariant-counter", {"history": history}, {"nodes": bad[:3]})
 
@@ -197,6 +206,12 @@ def run(ctx):
                 ctx.cls("directed")
                 ctx.nontrivial(("d", h))
                 ctx.sample("directed", {"history": h})
+            # a key far longer than the interpreter's recursion limit (a recursive walk answers short keys only)
+            long_key = tuple("ab"[i % 2] for i in range(3000))
+            hist = [(long_key, 1), (("a",), 2), (long_key[:1500], 3), ((), 4), (long_key, 5)]
+            check_history(ctx, TrieDict, hist, [long_key, long_key[:1500], long_key[:1499], long_key + ("a",), ("a",), ("a", "b"), ()])
+            ctx.count("key-longer-than-the-recursion-limit")
+            ctx.nontrivial(("long-key", 3000))
         maxlen = 3 if ctx.tier == "quick" else 4
         idx = 0
         for L in range(1, maxlen + 1):
